@@ -50,3 +50,45 @@ def instances(names, acc):
         else:
             out.append(inst)
     return out
+
+
+def undecodable_payload(R):
+    """a string of the right width that the strict reference decoder refuses"""
+    if R.kind == "int":
+        return (0).to_bytes(R.esize, "big")
+    y = 2
+    while R.x_from_y(y, 0) is not None or R.x_from_y(y, 1) is not None:
+        y += 1
+    return y.to_bytes(32, "little")
+
+
+def inbound_menu(inst, side, w, x, all_elements=False):
+    """[(kind, delivered bytes)] - the inbound alphabet of C07/C08 for the session (inst, side, w, x)"""
+    from ..ref import spake2 as RS
+    R, rp, q = inst.ref, inst.rp, inst.q
+    peer = PEER[side]
+    lab = peer.encode()
+    own = RS.message(rp, side, w, x)
+    y = (x + 1) % q
+    valid = RS.message(rp, peer, w, y)
+    if valid[1:] == own[1:] or (R.refuses_identity and valid[1:] == R.enc(R.identity)):
+        y = (x + 2) % q
+        valid = RS.message(rp, peer, w, y)
+    out = [("valid", valid)]
+    if all_elements:
+        for k, e in enumerate(R.elements()):
+            out.append(("element", lab + R.enc(e)))
+    out += [("own-side", (b"A" if side == "S" else side.encode()) + valid[1:]),
+            ("unknown-side", b"Z" + valid[1:]),
+            ("reflected", lab + own[1:]),
+            ("undecodable", lab + undecodable_payload(R)),
+            ("identity", lab + R.enc(R.identity)),
+            ("empty", b""),
+            ("over-long", valid + b"\x00"),
+            ("truncated", valid[:-1])]
+    seen, ded = set(), []
+    for k, b in out:
+        if b not in seen:
+            seen.add(b)
+            ded.append((k, b))
+    return ded
